@@ -392,18 +392,23 @@ def _sml_models(ck, which):
         ck.model("MCLayout", "MCLayout", "MCLayout_%s.cfg" % ck.tier, timeout=q(ck, 600, 6000))
     if "concat" in which:
         ck.model("MCConcat", "MCConcat", "MCConcat.cfg", timeout=600)
+    if "printparse" in which:
+        ck.model("MCPrintParse", "MCPrintParse", "MCPrintParse_%s.cfg" % ck.tier, timeout=q(ck, 600, 3000))
 
 
 @check("C04", design_ref="4 C04, App. G",
-       technique="TLA+ printer and parser models; trace validation of real String() -> sml.Parse round trips of random expressible messages and of every message of accepted texts",
+       technique="TLC model checking that the TLA+ parser model inverts the TLA+ printer model on a bounded scope; trace validation of real String() -> sml.Parse round trips of random expressible messages and of every message of accepted texts",
        text="For seeded random messages expressible in SML (every ASCII code in strings, boundary numbers, shortest-form floats, ASCII variables with "
             "all bound forms, nested numbered ellipses, adversarial names) and for every message the real parser returns for accepted texts, TLC checks "
             "that parsing the real printed form yields exactly one message, silently, with the same projection, variables, printed form (fixed point) "
             "and completed bytes; model agreement: String() equals SmlPrinter character for character and the re-parse equals SmlParser.",
        note=SML_NOTE + "; 'expressible' = ellipses numbered in order of appearance, variable names that are not type keywords, names the header lexer reads as one name")
 def c04(ck):
-    ck.rule.append("random expressible messages (3 of 4 cases) and messages of accepted plausible texts (1 of 4); non-trivial = message has an item; distinct by printed form")
-    _sml_models(ck, ["layout"])
+    ck.rule.append("model: MCPrintParse - every message of a bounded scope (ASCII literals over 10 awkward characters up to length 2 / 4, boundary "
+                   "numbers, all ASCII-variable bound forms, variables, numbered ellipses, lists to depth 2, header corner cases and adversarial "
+                   "names) printed by the printer model and parsed by the parser model; traces: random expressible messages (3 of 4 cases) and "
+                   "messages of accepted plausible texts (1 of 4); non-trivial = message has an item; distinct by printed form")
+    _sml_models(ck, ["printparse"])
     ck.trace("pp", "pp", ["-n", q(ck, 1200, 12000)], "TraceSml", "TraceSml.cfg", ["InvC04"], agree=["InvAgreeC04"],
              nontrivial=lambda e: e.get("orig", {}).get("item", {}).get("f") != "none", key=SML_KEY)
     ck.assumptions.append(SML_NOTE)
